@@ -147,7 +147,17 @@ inline bool forked(int run, int timeoutSec, const std::string &errPath, const st
   }
   v.set("run", run);
   v.set("scen", scen);
-  v.set("stderr", firstLines(errPath, 8));
+  std::string errText = firstLines(errPath, 8);
+  v.set("stderr", errText);
+  // class of a sanitizer report (TLC cannot inspect strings)
+  const char *san = errText.find("outside the range of representable values") != std::string::npos ? "float-cast"
+                    : errText.find("signed integer overflow") != std::string::npos            ? "signed-overflow"
+                    : errText.find("division by zero") != std::string::npos                   ? "div-zero"
+                    : errText.find("AddressSanitizer") != std::string::npos                   ? "memory"
+                    : errText.find("ThreadSanitizer") != std::string::npos                    ? "race"
+                                                                                               : "other";
+  v.set("san", san);
+  if (!v.has("hang")) v.set("hang", "unknown");
   emit(v);
   return false;
 }
